@@ -8,20 +8,21 @@ from .lib import decision, guards, paths
 from .lib.mir import AnchorLost
 from .lib.reachrule import ReachRule
 
-CONFIGS_QUICK = ["A"]
+CONFIGS_QUICK = ["A", "R"]
 CONFIGS_THOROUGH = ["A", "R", "NOAPI"]
 TECHNIQUE = "sibling-family rule over the 20 IntoHandler impls (impl-table bounds vs closure MIR), dominance of the user call by all Ok edges, callee-identity rules for FromParam/FromBody"
-LEVEL_TEXT = ("Decides clauses C07-a..d: for each generic IntoHandler impl, with p path-param and q request-item type parameters read from the impl's bounds: "
-              "n_params() is the literal p; the request closure calls assume_one_param iff p=1 and assume_two_params iff p=2 (these unsafe accessors have no "
-              "other callers), from_raw_param exactly p times and from_request exactly q times; the call of the user function is dominated by the Ok edge "
-              "of all p+q results and receives exactly those values in signature order; every other return is __error__(e); Router::finalize asserts "
-              "handler n_params <= route n_params before the final router exists; the ten integer FromParam impls parse the whole parameter with "
-              "str::parse::<Self> and no prefix parser is reachable; the blanket FromRequest for FromBody calls from_body only under Content-Type present, "
-              "its prefix equal to B::MIME_TYPE and a payload present, mapping failures to 400; the four body formats pair their media type with their "
-              "decoder; Option<FR> is None only when the inner extractor reports absence; from_raw_param hands from_param the percent-decoded text; a file part of a Multipart body is "
-              "reported as `no file` (Option<File> = None, Vec<File> shorter) only when it has neither a filename nor content (C07-e, the multipart codec's "
-              "empty-file and kind-mismatch decisions re-evaluated: what a typed body extractor hands the handler). "
-              "Decides these clauses, not the exactness of every delivered value.")
+LEVEL_TEXT = ("Decides clauses C07-a..d: for each generic IntoHandler impl, with p path-param and q request-item type parameters read from the impl's bounds: n_param"
+              's() is the literal p; the request closure calls assume_one_param iff p=1 and assume_two_params iff p=2 (these unsafe accessors have no other callers),'
+              ' from_raw_param exactly p times and from_request exactly q times; the call of the user function is dominated by the Ok edge of all p+q results and rec'
+              'eives exactly those values in signature order; every other return is __error__(e); Router::finalize asserts handler n_params <= route n_params before '
+              'the final router exists; the ten integer FromParam impls parse the whole parameter with str::parse::<Self> and no prefix parser is reachable; the blan'
+              'ket FromRequest for FromBody calls from_body only under Content-Type present, its prefix equal to B::MIME_TYPE and a payload present, mapping failures'
+              ' to 400; the four body formats pair their media type with their decoder; Option<FR> is None only when the inner extractor reports absence; from_raw_pa'
+              'ram hands from_param the percent-decoded text; a file part of a Multipart body is reported as `no file` (Option<File> = None, Vec<File> shorter) only '
+              "when it has neither a filename nor content (C07-e, the multipart codec's empty-file and kind-mismatch decisions re-evaluated: what a typed body extrac"
+              'tor hands the handler). C07-f: assume_one_param answers slot 0 and assume_two_params slots (0, 1) of the captured parameters by constant index (the k-'
+              'th handler parameter is the k-th captured segment, also when the route captures more than the handler takes). Decides these clauses, not the exactness'
+              ' of every delivered value.')
 
 IH = "ohkami::fang::handler::into_handler::IntoHandler"
 
@@ -36,6 +37,7 @@ def run(ck, progs):
         ck.guard("C07-c MUSTPASS body gate", lambda: c07c(ck, prog))
         ck.guard("C07-d MUSTPASS percent-decoding", lambda: c07d(ck, prog))
         ck.guard("C07-e DECISION multipart file presence", lambda: c07e(ck, prog))
+        ck.guard("C07-f TABLE param accessors by position", lambda: c07f(ck, prog))
     ck.config = None
 
 
@@ -360,3 +362,35 @@ def c07e(ck, prog):
         n += 1
         ck.ob(R, o["rule"].split(" ")[0] + ":" + o["key"], o["ok"], o["where"], o["detail"], how=o["how"], nontrivial=o.get("nontrivial", True))
     ck.floor(R, "codec decisions", n, 2)
+
+
+def c07f(ck, prog):
+    """`each path parameter is the segment at its position`: the router pushes captured segments in path order, so the k-th
+    parameter of a handler is slot k-1 of the captured list. assume_one_param answers slot 0 and assume_two_params answers
+    (slot 0, slot 1), by constant index -- not `the slot filled last`, which differs as soon as a handler takes fewer
+    parameters than its route captures (allowed: finalize only asserts handler <= route)."""
+    R = "C07-f TABLE param accessors by position"
+    from .lib import paths as _paths
+    want = {"assume_one_param": ["0"], "assume_two_params": ["0", "1"]}
+    for nm, slots in want.items():
+        fs = [f for f in prog.fns.values() if f.name == nm and "request::path" in f.key]
+        if len(fs) != 1:
+            raise AnchorLost("%s not found" % nm)
+        f = prog.inlined(fs[0], 2, lambda caller, callee: callee.crate == caller.crate and "request::path" in callee.key and len(callee.blocks) < 40)
+        got = []
+        for bb, kind, payload in _paths.ret_sites(f):
+            if kind == "other" and payload[0] == "agg":
+                got = [decision.describe_deep(f, a, 12) for a in payload[2]]
+            elif kind == "other" and payload[0] == "ref":
+                got = [decision.describe_deep(f, ["c", payload[2]], 12)]
+            elif kind == "call":
+                got = ["%s(%s)" % (payload.name, ",".join(decision.describe_deep(f, a, 12) for a in payload.args))]
+            elif kind == "move":
+                got = [decision.describe_deep(f, payload, 12)]
+        idx = []
+        for d in got:
+            m = re.search(r"(?:get_unchecked|index|get)\([^()]*(?:\([^()]*\))?[^()]*\.list,const (\d+)\)", d)
+            idx.append(m.group(1) if m and "next" not in d and "len(" not in d else "?(%s)" % d[:60])
+        ok = idx == slots
+        ck.ob(R, nm, ok, fs[0].loc(None), "" if ok else "%s answers slot(s) %s of the captured parameters, expected %s by constant index: a handler that takes fewer parameters than its route captures would receive the wrong segment" % (nm, idx, slots),
+              how="%s -> list[%s]" % (nm, "], list[".join(slots)))
